@@ -787,6 +787,36 @@ class CallMixin:
             raise Unsupported(".get() form (line %d)" % n.lineno)
         return d.get(args[0], args[1] if len(args) > 1 else None)
 
+    def b_astuple(self, args, kw, st, n):
+        """dataclasses.astuple of a Margins record"""
+        v = args[0]
+        if isinstance(v, tuple) and v and v[0] == "Margins":
+            return tuple(v[1:])
+        raise Unsupported("astuple of %r (line %d)" % (type(v), n.lineno))
+
+    b_dataclasses_astuple = b_astuple
+
+    def b_map(self, args, kw, st, n):
+        """map(f, it1, it2, ...) over concrete-length iterables, f a builtin the model knows (max, min, astuple, operator.add)"""
+        fn, its = args[0], args[1:]
+        lists = []
+        for it in its:
+            items = it.items if isinstance(it, SList) else it
+            if not isinstance(items, (list, tuple)) or (items and isinstance(items[0], str) and items[0] == "Margins"):
+                raise Unsupported("map over %r (line %d)" % (type(it), n.lineno))
+            lists.append(list(items))
+        nm = (getattr(fn, "name", None) or getattr(fn, "target", None) or "").split(".")[-1]
+        h = {"max": self.b_max, "min": self.b_min, "astuple": self.b_astuple}.get(nm)
+        out = []
+        for tup in zip(*lists):
+            if nm == "add":
+                out.append(arith("+", tup[0], tup[1], self, n))
+            elif h is not None:
+                out.append(h(list(tup), {}, st, n))
+            else:
+                raise Unsupported("map of %r (line %d)" % (nm, n.lineno))
+        return SList(out)
+
     def b_set(self, args, kw, st, n):
         if not args:
             return set()
